@@ -26,6 +26,14 @@ def describe_full(expr, c, n):
     return s, bool(t.conjugate), bool(t.negative)
 
 
+def raises_on(expr, v):
+    try:
+        G.build(expr).matches(v)
+        return False
+    except Exception:
+        return True
+
+
 def accepted(expr, dom):
     m = G.build(expr)
     res = []
@@ -663,7 +671,22 @@ def check(run):
         if i % 3 == 0:
             transformer_oracles(run, e, False, False, (s, c2, n2))
             dcases.append((e, False, False, s, c2, n2))
-        groups.setdefault(s, {}).setdefault(accepted(e, dom), []).append(e)
+        acc = accepted(e, dom)
+        groups.setdefault(s, {}).setdefault(acc, []).append(e)
+        # the sentence describes ONE set of accepted values: the same matcher objects asked again (and a freshly built one) answer
+        # the same, and the negated sentence accepts exactly the other values
+        again = accepted(e, dom)
+        neg = accepted(("not_", e), dom)
+        run.count("fragment_expressions_evaluated_twice")
+        bad = [v for v, a, b in zip(dom, acc, again) if a != b]
+        if bad:
+            run.violation("faithful:verdict-changes-between-evaluations", "the same check on the same value gives different verdicts when evaluated again",
+                          {"kind": "unstable", "expr": repr(e), "value": repr(bad[0])})
+        elif any(a == b for a, b in zip(acc, neg)):
+            k = next(i for i, (a, b) in enumerate(zip(acc, neg)) if a == b)
+            if not raises_on(e, dom[k]):
+                run.violation("faithful:negation-does-not-negate", "not_(m) and m give the same verdict on a value m evaluates without error",
+                              {"kind": "negation-verdict", "expr": repr(e), "value": repr(dom[k])})
         # its semantic neighbours: if one accepts other values it must be described differently
         vs = list(variants(e))
         must = list(variants(e, negation_variants_at_root))
@@ -839,6 +862,11 @@ def replay(path):
         a1, a2 = accepted(e1, [v])[0], accepted(e2, [v])[0]
         print(json.dumps({"description1": d1, "description2": d2, "verdict1": a1, "verdict2": a2}))
         return 1 if d1 == d2 and a1 != a2 else 0
+    if kind in ("unstable", "negation-verdict"):
+        e, v = G.parse(rp["expr"]), G.parse(rp["value"])
+        first, again, neg = accepted(e, [v, v]), accepted(e, [v, v]), accepted(("not_", e), [v])
+        print(json.dumps({"expr": rp["expr"], "value": rp["value"], "verdicts": list(first) + list(again), "negated": neg[0]}))
+        return 1 if len(set(first + again)) > 1 or (neg[0] == first[0] and not raises_on(e, v)) else 0
     if kind == "transformer":
         e = G.parse(rp["expr"])
         after = describe_full(e, rp["conjugate"], rp["negative"])[1:]
